@@ -94,6 +94,9 @@ struct Env
   const json& c;
   shared_ptr<Scanner> sc;
   shared_ptr<ProjDataInfo> pdi_full, pdi_data;
+  //! the geometry handed to set_up() / allocate(): the data geometry itself (same object), an equal-valued separate object, or the
+  //! LARGER full geometry (more segments than the data): BinNormalisation::check demands only *set_up_geometry >= *data_geometry
+  shared_ptr<ProjDataInfo> pdi_setup;
   shared_ptr<ExamInfo> exam;
   shared_ptr<VoxelsOnCartesianGrid<float>> image;
   vp::ExplicitP ix; // indexer of the data bins (rows unused)
@@ -123,6 +126,34 @@ make_indexer(const shared_ptr<const ProjDataInfo>& p)
   vp::ExplicitP::enumerate_bins(*p, P.bins);
   return P;
 }
+
+//! A normalisation class of the harness that implements get_bin_efficiency() ONLY: set_up / check / apply / undo (viewgrams and whole
+//! data) are the DEFAULTS of BinNormalisation ("apply/undo defaults in terms of get_bin_efficiency", the mechanism every STIR class
+//! that reads scanner files relies on; none of the classes constructible without such files uses it).  The efficiency of a bin is
+//! a pure function of (seed, bin); optionally it depends on the TOF index; optionally ~3 % of the bins have efficiency exactly 0.
+class EfficiencyTableNorm : public BinNormalisation
+{
+public:
+  EfficiencyTableNorm(uint64_t seed, bool tof_dependent, bool zeros)
+      : seed(seed),
+        tof_dependent(tof_dependent),
+        zeros(zeros)
+  {}
+  static float value(uint64_t seed, bool tof_dependent, bool zeros, const Bin& b)
+  {
+    const uint64_t key = (uint64_t(b.segment_num() + 512) << 44) ^ (uint64_t(b.axial_pos_num() + 2048) << 30) ^ (uint64_t(b.view_num() + 2048) << 18)
+                         ^ (uint64_t(b.tangential_pos_num() + 2048) << 6) ^ uint64_t(tof_dependent ? b.timing_pos_num() + 32 : 0);
+    if (zeros && c20::hreal(seed ^ 0x2e20ULL, key, 0., 1.) < 0.03)
+      return 0.F;
+    return float(c20::hreal(seed, key, 0.2, 5.));
+  }
+  float get_bin_efficiency(const Bin& b) const override { return value(seed, tof_dependent, zeros, b); }
+  std::string get_registered_name() const override { return "verif efficiency table"; }
+
+private:
+  uint64_t seed;
+  bool tof_dependent, zeros;
+};
 
 struct Built
 {
@@ -225,6 +256,21 @@ build(const json& s, Env& env, const Flags& fl)
     {
       b.norm.reset(new TrivialBinNormalisation);
     }
+  else if (k == "base")
+    {
+      const uint64_t seed = s["seed"].get<uint64_t>();
+      const bool tof_dep = s.value("tof_dependent", false), zeros = s.value("zeros", false);
+      b.norm.reset(new EfficiencyTableNorm(seed, tof_dep, zeros));
+      for (long i = 0; i < N; ++i)
+        {
+          const double e = double(EfficiencyTableNorm::value(seed, tof_dep, zeros, env.ix.bins[std::size_t(i)]));
+          b.e[std::size_t(i)] = e;
+          if (e == 0.)
+            b.skip[std::size_t(i)] = 1; // undo gives 0; apply divides by the documented floor 1e-20: outside the inverse clauses
+        }
+      b.exact_unit = false;
+      b.label = cat("base-class defaults", tof_dep ? "(TOF dependent)" : "", zeros ? "+zeros" : "");
+    }
   else if (k == "projdata")
     {
       // factors stored for the full geometry (possibly more segments than the data), TOF or non-TOF
@@ -305,6 +351,9 @@ build(const json& s, Env& env, const Flags& fl)
       const FanDims F = FanDims::from(*pdi, B);
       const uint64_t seed = s["seed"].get<uint64_t>();
       const int near_one = s["near_one"].get<int>(); // 0: random factors, 1: all exactly 1, 2: all within 1e-4 of 1
+      // dead crystals: efficiency EXACTLY 0 (what iterate_efficiencies writes for a detector without counts); every bin of such a
+      // crystal has efficiency 0 and is outside the inverse clauses ("wherever the efficiency is non-zero")
+      const int dead = s.value("dead", 0);
       bool do_eff = s["eff"].get<bool>(), do_geo = s["geo"].get<bool>(), do_block = s["block"].get<bool>();
       const bool per_block = s["sym_per_block"].get<bool>();
       // allocate(): GeoData3D(unit_ax, unit_tr / 2, ...): an odd transaxial unit is truncated -> only even units are a model
@@ -327,7 +376,7 @@ build(const json& s, Env& env, const Flags& fl)
       if (!do_eff && !do_geo && !do_block)
         do_eff = true;
       shared_ptr<BinNormalisationPETFromComponents> n(new BinNormalisationPETFromComponents);
-      const shared_ptr<ProjDataInfo> alloc_pdi = env.pdi_data;
+      const shared_ptr<ProjDataInfo> alloc_pdi = env.pdi_setup;
       const bool allow_geo = unit_tr % 2 == 0 && double(B.nphys) * B.nphys * B.nrphys * B.nrphys <= 3e6, allow_block = B.nb_tr >= 2 && B.nb_tr % 2 == 0;
       shared_ptr<c20::GeoClasses> cl;
       const bool pre_geo = env.c.contains("history") && env.c["history"]["realloc"].get<bool>() && env.c["history"]["pre_flags"][1].get<int>() != 0;
@@ -342,7 +391,8 @@ build(const json& s, Env& env, const Flags& fl)
         return float(c20::hreal(sd ^ salt, key, lo, hi));
       };
       // writes one set of factors through the accessors crystal_efficiencies() / geometric_factors() / block_factors()
-      auto fill = [n, B, cl, unit_tr, unit_ax, val_of](uint64_t sd, int no, bool fe, bool fg, bool fb) {
+      auto dead_index = [B](uint64_t sd, int k) { return long(c20::hreal(sd ^ 0xdeadULL, uint64_t(k), 0., 1.) * double(B.nrphys) * double(B.nphys)) % (long(B.nrphys) * B.nphys); };
+      auto fill = [n, B, cl, unit_tr, unit_ax, val_of, dead_index](uint64_t sd, int no, bool fe, bool fg, bool fb, int n_dead) {
         if (fe)
           {
             DetectorEfficiencies& eff = n->crystal_efficiencies();
@@ -351,6 +401,11 @@ build(const json& s, Env& env, const Flags& fl)
             for (int r = 0; r < B.nrphys; ++r)
               for (int a = 0; a < B.nphys; ++a)
                 eff[r][a] = val_of(sd, no, 0xeffULL, uint64_t(r) * 4096 + uint64_t(a), 0.2, 5.);
+            for (int k = 0; k < n_dead; ++k)
+              {
+                const long di = dead_index(sd, k);
+                eff[int(di / B.nphys)][int(di % B.nphys)] = 0.F;
+              }
           }
         if (fg)
           {
@@ -374,7 +429,7 @@ build(const json& s, Env& env, const Flags& fl)
           }
       };
       n->allocate(alloc_pdi, do_eff, do_geo, do_block, per_block);
-      fill(seed, near_one, do_eff, do_geo, do_block);
+      fill(seed, near_one, do_eff, do_geo, do_block, dead);
       auto val = [&](uint64_t salt, uint64_t key, double lo, double hi) { return val_of(seed, near_one, salt, key, lo, hi); };
       // histories: phase >= 0 writes the factors of an earlier round (another seed, the near-one class and - when the history
       // re-allocates - the component switches given there), phase < 0 the final ones
@@ -384,7 +439,7 @@ build(const json& s, Env& env, const Flags& fl)
           {
             if (realloc)
               n->allocate(alloc_pdi, do_eff, do_geo, do_block, per_block);
-            fill(seed, near_one, do_eff, do_geo, do_block);
+            fill(seed, near_one, do_eff, do_geo, do_block, dead);
             return;
           }
         bool pe = do_eff, pg = do_geo, pb = do_block;
@@ -397,9 +452,16 @@ build(const json& s, Env& env, const Flags& fl)
               pe = true;
             n->allocate(alloc_pdi, pe, pg, pb, per_block);
           }
-        fill(seed ^ (0x5bd1e995ULL * uint64_t(phase + 1)), h["pre_near_one"].get<int>(), pe, pg, pb);
+        fill(seed ^ (0x5bd1e995ULL * uint64_t(phase + 1)), h["pre_near_one"].get<int>(), pe, pg, pb, h.value("pre_dead", 0));
       });
       b.norm = n;
+      std::set<long> dead_set;
+      if (do_eff)
+        for (int k = 0; k < dead; ++k)
+          dead_set.insert(dead_index(seed, k));
+      if (!dead_set.empty())
+        stats().cls("components: dead crystals (efficiency exactly 0)");
+      long n_dead_bins = 0;
       for (long i = 0; i < N; ++i)
         {
           const Bin& bin = env.ix.bins[std::size_t(i)];
@@ -415,6 +477,14 @@ build(const json& s, Env& env, const Flags& fl)
             }
           const int na = B.new_tr(a), nra = B.new_ax(ra), nb_ = B.new_tr(bq), nrb = B.new_ax(rb);
           double e = 1.;
+          if (dead_set.count(long(nra) * B.nphys + na) || dead_set.count(long(nrb) * B.nphys + nb_))
+            {
+              // the harness's own statement: a bin of a dead crystal has efficiency 0 (product with a factor 0)
+              b.e[std::size_t(i)] = 0.;
+              b.skip[std::size_t(i)] = 1;
+              ++n_dead_bins;
+              continue;
+            }
           if (do_eff)
             e *= double(val(0xeffULL, uint64_t(nra) * 4096 + uint64_t(na), 0.2, 5.)) * double(val(0xeffULL, uint64_t(nrb) * 4096 + uint64_t(nb_), 0.2, 5.));
           if (do_geo)
@@ -433,9 +503,10 @@ build(const json& s, Env& env, const Flags& fl)
             }
           b.e[std::size_t(i)] = e;
         }
+      stats().count("components: bins of dead crystals", n_dead_bins);
       b.exact_unit = near_one == 1;
       b.tol_ref = near_one == 2 ? 1e-6 : 5e-6;
-      b.label = cat("components(", do_eff ? "e" : "", do_geo ? "g" : "", do_block ? "b" : "", near_one ? cat(",near_one=", near_one) : "", ")");
+      b.label = cat("components(", do_eff ? "e" : "", do_geo ? "g" : "", do_block ? "b" : "", near_one ? cat(",near_one=", near_one) : "", dead ? cat(",dead=", dead) : "", ")");
     }
   else if (k == "chain")
     {
@@ -629,7 +700,7 @@ make_group(Group& G, const json& spec, Env& env, std::string& reason, const json
           const auto alts = alternative_geometries(env);
           auto geometry = [&](int k) -> std::pair<std::string, shared_ptr<ProjDataInfo>> {
             if (k <= 0 || alts.empty())
-              return { "same geometry", env.pdi_data };
+              return { "same geometry", env.pdi_setup };
             return alts[std::size_t(k - 1) % alts.size()];
           };
           const bool pre_factors = h["pre_factors"].get<bool>() && !G.b.refill.empty();
@@ -701,7 +772,7 @@ make_group(Group& G, const json& spec, Env& env, std::string& reason, const json
             for (auto& f : G.b.refill)
               f(-1, h);
         }
-      if (G.b.norm->set_up(env.exam, env.pdi_data) != Succeeded::yes)
+      if (G.b.norm->set_up(env.exam, env.pdi_setup) != Succeeded::yes)
         {
           reason = "set_up returned Succeeded::no";
           return false;
@@ -751,7 +822,7 @@ Result
 check(const json& c)
 {
   g_excluded.clear();
-  Env env{ c, {}, {}, {}, {}, {}, {}, {} };
+  Env env{ c, {}, {}, {}, {}, {}, {}, {}, {} };
   try
     {
       env.sc = c20::make_scanner(c["scanner"]);
@@ -763,6 +834,9 @@ check(const json& c)
       if (dms >= 0 && dms < env.pdi_data->get_max_segment_num())
         env.pdi_data->reduce_segment_range(-dms, dms);
       env.image = vg::make_image(c["image"], *env.pdi_data, 40);
+      // 0: set_up with the object the data use (as before), 1: an equal-valued separate object, 2: the full geometry (>= the data's)
+      const int su = c.value("setup_geom", 0);
+      env.pdi_setup = su == 2 ? env.pdi_full : (su == 1 ? env.pdi_data->create_shared_clone() : env.pdi_data);
       // arc-corrected bins must lie inside the detector ring: ProjDataInfoCylindrical::get_tantheta asserts R >= |s|
       // (sqrt of a negative number otherwise).  The generator keeps them inside; a hand-made case is rejected.
       {
@@ -825,6 +899,9 @@ check(const json& c)
   Group& G0 = groups[0];
   const Built& R = G0.b;
   stats().cls("class " + top);
+  if (env.pdi_setup != env.pdi_data)
+    stats().cls(env.pdi_setup->get_max_segment_num() > env.pdi_data->get_max_segment_num() ? "set_up for a larger geometry than the data (more segments)"
+                                                                                            : "set_up with a separate equal ProjDataInfo object");
   if (top == "chain")
     stats().cls(cat("chain of ", spec["members"].size()));
   if (tof)
@@ -842,6 +919,24 @@ check(const json& c)
       {
         x1[std::size_t(i)] = double(float(g.real(5., 20.)));
         x2[std::size_t(i)] = double(float(g.real(1., 100.)));
+      }
+    // data are any floats (precorrected data have zeros and negative values): in this class x1 holds exact zeros (~8 %) and negative
+    // values (~12 %); x2 stays positive, so the factor of a bin with x1 == 0 is still determined (from x2)
+    if (c.value("x_signed", 0) != 0)
+      {
+        vf::SplitMix h(c["seed_x"].get<uint64_t>() ^ 0x51e9edULL);
+        long nz = 0, nn = 0;
+        for (long i = 0; i < N; ++i)
+          {
+            const double r = h.real(0., 1.);
+            if (r < 0.08)
+              x1[std::size_t(i)] = 0., ++nz;
+            else if (r < 0.20)
+              x1[std::size_t(i)] = -x1[std::size_t(i)], ++nn;
+          }
+        stats().cls("data with exact zeros and negative values");
+        stats().count("data bins exactly 0", nz);
+        stats().count("data bins negative", nn);
       }
   }
   const BinNormalisation& N0 = *G0.b.norm;
@@ -866,15 +961,25 @@ check(const json& c)
             VF_CHECK(A1[u] == 0., R.label, ": zero factor at ", bin_str(bin), " but apply gives ", A1[u]);
           continue;
         }
-      const double e1 = U1[u] / x1[u], e2 = U2[u] / x2[u];
+      const double e2 = U2[u] / x2[u];
+      if (x1[u] == 0.)
+        {
+          // 0 x e = 0 and 0 / e = 0 for the finite positive e of this bin; e itself is decided on x2
+          VF_CHECK(U1[u] == 0. && A1[u] == 0., R.label, ": data value 0 at ", bin_str(bin), " becomes ", U1[u], " (undo) / ", A1[u], " (apply)");
+          VF_CHECK(e2 > 0 && std::isfinite(e2), R.label, ": undo multiplies ", bin_str(bin), " by ", e2, " (not a positive factor)");
+          smax(R.has_atten ? "max rel dev e vs reference (with attenuation member)" : "max rel dev e vs reference (no projector)", std::fabs(e2 - er) / er);
+          VF_CHECK(std::fabs(e2 - er) <= R.tol_ref * er, R.label, ": undo multiplies ", bin_str(bin), " by ", e2, " but the efficiency is ", er);
+          continue;
+        }
+      const double e1 = U1[u] / x1[u];
       VF_CHECK(e1 > 0 && std::isfinite(e1), R.label, ": undo multiplies ", bin_str(bin), " by ", e1, " (not a positive factor)");
       smax("max rel dev e(x1) vs e(x2)", std::fabs(e1 - e2) / e1);
       VF_CHECK(std::fabs(e1 - e2) <= TOL_SAME_E * e1, R.label, ": the factor of undo depends on the data at ", bin_str(bin), ": ", e1, " vs ", e2);
       smax(R.has_atten ? "max rel dev e vs reference (with attenuation member)" : "max rel dev e vs reference (no projector)", std::fabs(e1 - er) / er);
       VF_CHECK(std::fabs(e1 - er) <= R.tol_ref * er, R.label, ": undo multiplies ", bin_str(bin), " by ", e1, " but the efficiency is ", er);
       const double back = A1[u] * e1;
-      smax("max rel dev apply(x) e vs x", std::fabs(back - x1[u]) / x1[u]);
-      VF_CHECK(std::fabs(back - x1[u]) <= TOL_SAME_E * 2 * x1[u], R.label, ": apply does not divide by the factor of undo at ", bin_str(bin), ": apply(x)=", A1[u],
+      smax("max rel dev apply(x) e vs x", std::fabs(back - x1[u]) / std::fabs(x1[u]));
+      VF_CHECK(std::fabs(back - x1[u]) <= TOL_SAME_E * 2 * std::fabs(x1[u]), R.label, ": apply does not divide by the factor of undo at ", bin_str(bin), ": apply(x)=", A1[u],
                " x=", x1[u], " e=", e1);
     }
   stats().count("bins outside the inverse clauses (zero efficiency / zero factor)", n_skip);
@@ -890,9 +995,10 @@ check(const json& c)
         const std::size_t u = std::size_t(i);
         if (R.skip[u])
           continue;
-        smax("max rel dev apply(undo(x)) vs x", std::max(std::fabs(AU[u] - x1[u]), std::fabs(UA[u] - x1[u])) / x1[u]);
-        VF_CHECK(std::fabs(AU[u] - x1[u]) <= TOL_INVERSE * x1[u], R.label, ": apply(undo(x)) != x at ", bin_str(env.ix.bins[u]), ": ", AU[u], " vs ", x1[u]);
-        VF_CHECK(std::fabs(UA[u] - x1[u]) <= TOL_INVERSE * x1[u], R.label, ": undo(apply(x)) != x at ", bin_str(env.ix.bins[u]), ": ", UA[u], " vs ", x1[u]);
+        if (x1[u] != 0.)
+          smax("max rel dev apply(undo(x)) vs x", std::max(std::fabs(AU[u] - x1[u]), std::fabs(UA[u] - x1[u])) / std::fabs(x1[u]));
+        VF_CHECK(std::fabs(AU[u] - x1[u]) <= TOL_INVERSE * std::fabs(x1[u]), R.label, ": apply(undo(x)) != x at ", bin_str(env.ix.bins[u]), ": ", AU[u], " vs ", x1[u]);
+        VF_CHECK(std::fabs(UA[u] - x1[u]) <= TOL_INVERSE * std::fabs(x1[u]), R.label, ": undo(apply(x)) != x at ", bin_str(env.ix.bins[u]), ": ", UA[u], " vs ", x1[u]);
       }
   }
 
@@ -982,7 +1088,7 @@ check(const json& c)
                   VF_CHECK(ge == 0., R.label, ": get_bin_efficiency = ", ge, " at zero-efficiency ", bin_str(env.ix.bins[u]));
                 continue;
               }
-            const double e1 = U1[u] / x1[u];
+            const double e1 = x1[u] != 0. ? U1[u] / x1[u] : U2[u] / x2[u];
             smax("max rel dev get_bin_efficiency vs e", std::fabs(ge - e1) / e1);
             VF_CHECK(std::fabs(ge - e1) <= TOL_GEB * e1, R.label, ": get_bin_efficiency = ", ge, " but undo multiplies by ", e1, " at ", bin_str(env.ix.bins[u]));
           }
@@ -1007,7 +1113,7 @@ check(const json& c)
                        " apply=", A1[u]);
             else
               // BinNormalisationPETFromComponents::is_trivial: "up to a tolerance of 1e-4" per component, up to 4 components per bin
-              VF_CHECK(std::fabs(U1[u] - x1[u]) <= 5e-4 * x1[u] && std::fabs(A1[u] - x1[u]) <= 5e-4 * x1[u], R.label,
+              VF_CHECK(std::fabs(U1[u] - x1[u]) <= 5e-4 * std::fabs(x1[u]) && std::fabs(A1[u] - x1[u]) <= 5e-4 * std::fabs(x1[u]), R.label,
                        ": reports is_trivial() but changes ", bin_str(env.ix.bins[u]), " by more than the documented tolerance: x=", x1[u], " undo=", U1[u]);
           }
       }
@@ -1053,7 +1159,7 @@ check(const json& c)
             for (long i = 0; i < N; ++i)
               {
                 const Bin& b = env.ix.bins[std::size_t(i)];
-                if (b.segment_num() != 0 || b.tangential_pos_num() != 0)
+                if (b.segment_num() != 0 || b.tangential_pos_num() != 0 || x1[std::size_t(i)] == 0.)
                   continue;
                 const double L = std::log(A1[std::size_t(i)] / x1[std::size_t(i)]) * 10. / mu;
                 ++n;
@@ -1084,6 +1190,8 @@ check(const json& c)
               for (long i = 0; i < N; ++i)
                 {
                   const std::size_t u = std::size_t(i);
+                  if (x1[u] == 0.)
+                    continue;
                   const double acf_a = A1[u] / x1[u], acf_b = Ab[u] / x1[u], acf_s = As[u] / x1[u];
                   smax("max rel dev ACF(mu1+mu2) vs product", std::fabs(acf_s - acf_a * acf_b) / (acf_a * acf_b));
                   VF_CHECK(std::fabs(acf_s - acf_a * acf_b) <= TOL_ATT * acf_a * acf_b, "ACF(mu1+mu2) = ", acf_s, " but ACF(mu1) ACF(mu2) = ", acf_a, " x ", acf_b,
@@ -1117,6 +1225,12 @@ gen_member(Src& s, const std::string& k)
       m["cyl_fov"] = s.chance(3, 4);
       m["cache"] = int(s.pick(std::vector<int>{ 2, 2, 1, 0 }));
     }
+  else if (k == "base")
+    {
+      m["seed"] = s.seed64();
+      m["tof_dependent"] = s.coin();
+      m["zeros"] = s.chance(1, 6);
+    }
   else if (k == "components")
     {
       m["seed"] = s.seed64();
@@ -1125,6 +1239,15 @@ gen_member(Src& s, const std::string& k)
       m["block"] = s.chance(1, 3);
       m["sym_per_block"] = s.coin();
       m["near_one"] = int(s.pick(std::vector<int>{ 0, 0, 0, 0, 0, 0, 1, 2 }));
+      // dead crystals (efficiency exactly 0, legal: the ML estimation writes 0 for a detector without counts); with them the
+      // all-1 / near-1 factors are made frequent, so that "reports itself trivial" is decided with zeroed bins on scanners WITHOUT gaps
+      m["dead"] = s.chance(1, 4) ? int(s.range(1, 2)) : 0;
+      if (m["dead"].get<int>() > 0)
+        {
+          m["eff"] = true;
+          if (s.chance(1, 3))
+            m["near_one"] = int(s.range(1, 2));
+        }
     }
   return m;
 }
@@ -1135,10 +1258,12 @@ gen(Src& s, int size)
   json c;
   // class of the case
   const int roll = int(s.range(0, 99));
-  const std::vector<std::string> member_kinds = { "trivial", "projdata", "projdata", "projdata", "atten", "atten", "components", "components" };
+  const std::vector<std::string> member_kinds = { "trivial", "projdata", "projdata", "projdata", "atten", "atten", "components", "components", "base" };
   json spec;
   if (roll < 6)
     spec = gen_member(s, "trivial");
+  else if (roll < 12)
+    spec = gen_member(s, "base"); // harness class on the base-class defaults
   else if (roll < 30)
     spec = gen_member(s, "projdata");
   else if (roll < 52)
@@ -1167,8 +1292,9 @@ gen(Src& s, int size)
           {
             int type, v_tr, v_ax;
           };
-          const std::vector<Fam> fams = { { int(Scanner::Siemens_mMR), 1, 0 }, { int(Scanner::Siemens_mCT), 1, 1 }, { int(Scanner::E1080), 1, 1 } };
-          const Fam f = fams[std::size_t(s.range(0, 2))];
+          const std::vector<Fam> fams = { { int(Scanner::Siemens_mMR), 1, 0 },        { int(Scanner::Siemens_mCT), 1, 1 },  { int(Scanner::E1080), 1, 1 },
+                                          { int(Scanner::Siemens_Vision_600), 1, 0 }, { int(Scanner::UPENN_5rings), 1, 0 } }; // the five families of C20
+          const Fam f = fams[std::size_t(s.range(0, 4))];
           json j;
           j["family"] = f.type;
           int p_tr, nb_tr, n, guard = 0;
@@ -1336,8 +1462,16 @@ gen(Src& s, int size)
       h["use_between"] = s.coin();
       h["member_alt"] = (spec["k"] == "chain" && s.chance(1, 3)) ? int(s.range(0, 2)) : -1;
       h["member_alt_geom"] = int(s.range(0, 4));
+      h["pre_dead"] = s.chance(1, 4) ? 1 : 0; // components: a dead crystal in the EARLIER factors
       c["history"] = h;
     }
+  // data with exact zeros and negative values
+  c["x_signed"] = s.chance(1, 3) ? 1 : 0;
+  // the ProjDataInfo handed to set_up / allocate: the data's own object, an equal separate object, or the full geometry (more
+  // segments than the data; BinNormalisation::check: "*proj_data_info_sptr >= proj_data_info")
+  c["setup_geom"] = int(s.pick(std::vector<int>{ 0, 0, 1, 2, 2 }));
+  if (c["setup_geom"].get<int>() == 2 && c["data_max_seg"].get<int>() < 0)
+    c["data_max_seg"] = int(s.range(0, 1));
   return c;
 }
 
